@@ -739,6 +739,8 @@ def run(ctx):
             lines += ['C10 eqrow %d' % k for k in range(nlive)]
             m['hash'] = len(lines)
             lines += ['C10 hash %d' % k for k in range(nlive)]
+            m['kinds'] = len(lines)
+            lines.append('C10 kinds')
             m['n'] = nlive
             marks.append(m)
         if mpool.keys:
@@ -762,6 +764,12 @@ def run(ctx):
                 break
             obs = st['obs']
             stop = False
+            if 'kinds' in m:
+                # `Coords.kind` of every live grid (0 regular, 1 separated, 2 unstructured) against the classes of the real coordinates
+                real_k = 'k' + ''.join({'reg': '0', 'sep': '1', 'uns': '2'}[sn['kind']] for sn in obs['snaps'])
+                if out[base + m['kinds']] != 'ok ' + real_k:
+                    dis(ctx, 'C10 kinds', {'case': case, 'after': op, 'impl': real_k, 'model': out[base + m['kinds']]})
+                    break
             if st.get('dict') is not None:
                 # `toDict` of the model against what `to_dict()` wrote (the request just before the op)
                 ctx.traces_validated += 1
